@@ -16,7 +16,8 @@ type xrunner struct {
 	kind     string
 	env      EnvSpec
 	signZero bool
-	caches   []*exprCache
+	local    []*xlocal
+	envFor   func(d *adoc.Doc) EnvSpec // per-document environment (variables holding nodes); nil = env
 	// quirkEnv, when set, returns the reference environment with the open
 	// known-finding quirks switched on; attribute() names the finding.
 	known func(x XCase, got Outcome, d *adoc.Doc, ctx *adoc.Node, e refExpr) string
@@ -25,32 +26,84 @@ type xrunner struct {
 func newXRunner(c *run.Check, kind string, env EnvSpec) *xrunner {
 	r := &xrunner{c: c, kind: kind, env: env}
 	for i := 0; i < run.Workers(); i++ {
-		r.caches = append(r.caches, newExprCache())
+		r.local = append(r.local, &xlocal{distinct: map[string]struct{}{}})
 	}
 	return r
+}
+
+// xlocal holds per-worker counters (merged by flush) to keep the hot loop
+// free of shared-memory contention.
+type xlocal struct {
+	evals    int64
+	distinct map[string]struct{}
+}
+
+// flush merges the per-worker counters into the check.
+func (r *xrunner) flush() {
+	for _, l := range r.local {
+		r.c.Evaluations.Add(l.evals)
+		l.evals = 0
+		for k := range l.distinct {
+			r.c.Distinct(k)
+		}
+		l.distinct = map[string]struct{}{}
+	}
 }
 
 func ctxKindName(n *adoc.Node) string { return n.Kind.String() }
 
 
-// runDoc evaluates all exprs from all context nodes accepted by ctxOK.
-func (r *xrunner) runDoc(w int, d *adoc.Doc, exprs []refExpr, ctxOK func(*adoc.Node) bool) {
+// runGrid evaluates every expression on every document (generated on demand
+// by gen) from every context node accepted by ctxOK. Work is cut into
+// (document chunk x expression chunk) jobs so that neither compiled queries
+// nor cursor trees outlive a job or are shared between goroutines.
+func (r *xrunner) runGrid(nd int, gen func(i int) *adoc.Doc, exprs []refExpr, ctxOK func(*adoc.Node) bool) {
+	const docChunk, exprChunk = 128, 96
+	type job struct{ d0, d1, e0, e1 int }
+	var jobs []job
+	for d0 := 0; d0 < nd; d0 += docChunk {
+		for e0 := 0; e0 < len(exprs); e0 += exprChunk {
+			jobs = append(jobs, job{d0, min(d0+docChunk, nd), e0, min(e0+exprChunk, len(exprs))})
+		}
+	}
+	run.ParallelW(len(jobs), func(w, ji int) {
+		if (!triage && r.c.Violations() > 0) || r.c.TimeUp() {
+			return
+		}
+		j := jobs[ji]
+		cache := newExprCache()
+		for di := j.d0; di < j.d1; di++ {
+			r.runDoc(w, cache, gen(di), exprs[j.e0:j.e1], ctxOK)
+			if !triage && r.c.Violations() > 0 {
+				return
+			}
+		}
+	})
+	r.flush()
+}
+
+// runDoc evaluates exprs from all context nodes of d accepted by ctxOK.
+func (r *xrunner) runDoc(w int, cache *exprCache, d *adoc.Doc, exprs []refExpr, ctxOK func(*adoc.Node) bool) {
 	b, err := impl.Bind(d)
 	if err != nil {
 		r.c.Violation(map[string]interface{}{"kind": r.kind + "/bind", "doc": d.String(), "events": impl.Events(d)}, "cannot bind document "+d.String()+": "+err.Error())
 		return
 	}
 	rd := b.Doc // read-back document: namespace/attribute order as exposed by the implementation
-	renv := r.env.RefEnv(rd)
-	settings := r.env.ImplSettings(b)
-	cache := r.caches[w]
+	env := r.env
+	if r.envFor != nil {
+		env = r.envFor(rd)
+	}
+	renv := env.RefEnv(rd)
+	settings := env.ImplSettings(b)
+	loc := r.local[w]
 	for _, ctx := range rd.Nodes {
 		if ctxOK != nil && !ctxOK(ctx) {
 			continue
 		}
 		cur := b.ToCur[ctx]
 		for _, e := range exprs {
-			r.c.Evaluations.Add(1)
+			loc.evals++
 			var want Outcome
 			if e.Err != nil {
 				want = Outcome{Err: true, ErrText: "syntax: " + e.Err.Error()}
@@ -66,11 +119,11 @@ func (r *xrunner) runDoc(w int, d *adoc.Doc, exprs []refExpr, ctxOK func(*adoc.N
 			}
 			if SameValue(got, want, r.signZero) && !IsPanicErr(got) {
 				if !want.Err && !(want.Type == "node-set" && len(want.Nodes) == 0) {
-					r.c.Distinct(fmt.Sprintf("%s|%s|%s", e.Text, ctxKindName(ctx), shortOutcome(want)))
+					loc.distinct[e.Text+"|"+ctxKindName(ctx)+"|"+shortOutcome(want)] = struct{}{}
 				}
 				continue
 			}
-			x := MakeXCase(r.kind, rd, ctx, e.Text, r.env, want, got)
+			x := MakeXCase(r.kind, rd, ctx, e.Text, env, want, got)
 			if r.known != nil {
 				if id := r.known(x, got, rd, ctx, e); id != "" {
 					r.c.Known(id, fmt.Sprintf("%s from %s in %s", e.Text, ctx.Describe(), rd.String()))
